@@ -211,7 +211,7 @@ class ParameterList(object):
         elif key == "restarts.max_unsuccessful_restarts":
             type_str, nonetype_ok, lower, upper = 'int', False, 0, None
         elif key == "restarts.rhoend_scale":
-            type_str, nonetype_ok, lower, upper = 'float', False, 0.0, None
+            type_str, nonetype_ok, lower, upper = 'float', False, 0.0, 1.0
         elif key == "restarts.use_soft_restarts":
             type_str, nonetype_ok, lower, upper = 'bool', False, None, None
         elif key == "restarts.soft.num_geom_steps":
